@@ -141,6 +141,12 @@ async fn handle_request_stream<S>(
         .for_each_concurrent(
             SHARED_IN_CHANNEL_SIZE,
             move |(meta, in_message)| async move {
+                // Verification hook: fault injection point
+                #[cfg(aquatic_verif)]
+                if aquatic_common::verif::fault("ws_swarm", 0) {
+                    return;
+                }
+
                 let mut out_messages = Vec::new();
 
                 match in_message {
